@@ -22,6 +22,43 @@ SURVIVED_FIRST = {
     "C19-6": "nothing looked at which files exist after restoration; a file named for a boundary that fell into the outage is now a violation",
     "C20-5": "children finished within one interval; rolling kinds now also run with the calls straddling a real rotation boundary (crash at the end)",
     "C20-6": "the logger-level-layout path (appender receives bytes) had no crash-point kind; three such kinds added",
+    # round 4
+    "C01-7": "every reference named its own appender; two references of one logger may now name the same appender with disjoint explicit ranges (expected = union)",
+    "C01-8": "no bound above MAX was generated at all (carve-out made for the rolling-file logger); now only that logger kind is carved out, elsewhere explicit upper bounds may be user levels above MAX",
+    "C02-7": "tag lists were rendered with blanks and commas only; entries are now also separated over lines (CR/LF, tabs)",
+    "C02-8": "loggers had no level attribute, so 'served by' was always observable as a delivery; loggers with restricted or empty ranges added - their tags must reach nobody",
+    "C03-7": "no context fields; the FieldsFromContext hook now hands every event one shared slice with spare capacity",
+    "C03-8": "one sink per file; path 'two loggers, two File appenders, one file' added",
+    "C04-7": "every raw write carried an id; raw writes with an empty payload (nil / zero-length) added as items of their own",
+    "C04-8": "only levels registered before Start were used; events at a user level registered while the logger runs added",
+    "C05-7": "as C04-7: an empty raw write before Stop",
+    "C05-8": "appender and logger names never coincided; the first file-owning appender may now be named like its logger",
+    "C06-7": "the C06 histories had no below-level events (C04's had); added",
+    "C06-8": "the concurrent DiscardOldest run only checked order; what survives of one producer must be a gap-free run ending with its last item",
+    "C07-7": "level codes were unique; distinct levels sharing a code (alias of WARN, zero Level next to NONE) and level names needing escapes added",
+    "C07-8": "context-field slices were fresh per event; an earlier event now gets a prefix of the slice the checked event receives in full",
+    "C08-7": "as C07-8 for the text layout",
+    "C08-8": "as C07-7 for the text layout",
+    "C09-7": "the layouts test used a fixed header; file path, tag, context string and level name are now hostile strings, the file:line clipped at several widths",
+    "C09-8": "as C09-7 (level name)",
+    "C10-8": "hook times were all distinct instants in UTC; consecutive events now often get the same instant in different zones",
+    "C11-7": "about 500 call sites per process; now >1000 (generator -n 900) and a sweep over all of them, twice, in fast mode",
+    "C11-8": "every Refresh spelled out both caller options; a rejected Refresh with an ill-typed option followed by a Refresh that does not mention them added",
+    "C12-8": "missing names were plain names; names that look like configuration paths below a configured logger, appender names and other spellings added (one child process per name)",
+    "C13-7": "restarts happened at generated offsets, never while a boundary passed; many appenders now restart in a tight loop across the boundary",
+    "C13-8": "writers idle across a whole interval never resumed in the same instant; spinning writers with long bursts added",
+    "C14-7": "every scan found its directory; a scan while the directory is away now precedes the judged one",
+    "C14-8": "only appenders were scanned; a Refresh-built RollingFile logger (separate=false) with foreign name.wf.<ts> files added to the real-rotation runs",
+    "C15-7": "element lists had 1-3 entries; lists with two-digit indices added",
+    "C15-8": "the dangling reference was an unrelated name; names that only resemble an appender's name added",
+    "C16-8": "only RegisterTag was tried while live; the app/biz/rpc helpers are entry points too",
+    "C17-7": "each case parsed variants of one expression that differ between tokens only; a variant with one more space inside a string literal added",
+    "C17-8": "well-formed and malformed inputs were parsed in separate tests; a malformed input (defect inside a nested block) now precedes a third of the exact cases",
+    "C18-7": "the lifecycle configurations listed no tags; they now name unregistered and ill-formed tags",
+    "C19-7": "the directory was only renamed away; a regular file may now sit at its path meanwhile",
+    "C19-8": "one appender per directory; a companion appender with a longer interval sharing the failed boundary added",
+    "C20-7": "as C03-8: two loggers with their own File appenders on one file",
+    "C20-8": "appenders were started once; kinds with an appender value stopped and started again added",
 }
 
 def main():
